@@ -1,0 +1,34 @@
+//go:build verif
+
+package lastgersync
+
+import (
+	"context"
+
+	"github.com/agglayer/aggkit/sync"
+)
+
+// Verification hooks (build tag verif): a LastGERSync facade around the real processor, without
+// downloader/driver, plus pass-throughs to the processor's write path. No logic lives here.
+
+// NewVerifLastGERSync returns a LastGERSync whose only component is the real processor on dbPath.
+func NewVerifLastGERSync(dbPath string) (*LastGERSync, error) {
+	p, err := newProcessor(dbPath)
+	if err != nil {
+		return nil, err
+	}
+	return &LastGERSync{processor: p}, nil
+}
+
+// VerifProcessBlock is processor.ProcessBlock.
+func (s *LastGERSync) VerifProcessBlock(ctx context.Context, b sync.Block) error {
+	return s.processor.ProcessBlock(ctx, b)
+}
+
+// VerifReorg is processor.Reorg.
+func (s *LastGERSync) VerifReorg(ctx context.Context, firstReorgedBlock uint64) error {
+	return s.processor.Reorg(ctx, firstReorgedBlock)
+}
+
+// VerifClose closes the processor's database handle (node stop).
+func (s *LastGERSync) VerifClose() error { return s.processor.database.Close() }
